@@ -195,7 +195,11 @@ pub fn minimise(eng: &mut Engine, case: &Case, sig: &str, oracle: &Oracle<'_>) -
         for i in 1..best.schedules.len() {
             let mut c = best.clone();
             c.schedules = vec![best.schedules[0].clone(), best.schedules[i].clone()];
-            c.notes = vec![];
+            c.notes = if best.notes.len() == best.schedules.len() {
+                vec![best.notes[0].clone(), best.notes[i].clone()]
+            } else {
+                vec![]
+            };
             if fails(eng, &c) {
                 best = c;
                 break;
